@@ -56,6 +56,7 @@ class FnContract:
     generator: bool = False
     yields: Optional[Callable] = None      # yields(ctx) -> Bool over ctx.yielded
     exc_any_ok: bool = False               # `raises` lists are not exhaustive (used for assumed externals)
+    oid_name: Optional[str] = None         # name used in obligation ids instead of the target's qualname (target located by role after a rename)
     may_raise_any: bool = False            # assumed external: may raise any Exception (EXC-ANY) besides `raises`
     exc_ensures: list = field(default_factory=list)  # [(label, fn(ctx) -> Bool)]: postconditions of every *exceptional* outcome (ctx.exc set)
     # --- nested functions (closures) under their own contract -----------------------------------
